@@ -125,8 +125,42 @@ def run(tier, seed, replay=None):
         if badp:
             rep.violation("pseudo_missing_g", {"gdl": wprog.raw_gdl, "options": ["-g"], "pseudo_map_entries_with_a_real_glyph_the_font_lacks": badp},
                           signature="C17:pseudo-of-a-missing-glyph-under-g-records-the-bad-glyph-placeholder")
+    # under -g a missing glyph is skipped wherever the class is used - also where a glyph attribute expression takes a
+    # metric of "the class" (its first glyph): the first glyph the font HAS. Missing member first, in the middle, last.
+    def _metrics(i):
+        w = 300 + 10 * (i % 17)
+        return {"advancewidth": w + 50, "bb.right": 20 + w, "bb.top": 400 + 13 * (i % 11)}
+    for mpos, members in (("first", ["0x4E00", "0x6B", "0x68"]), ("middle", ["0x6B", "0x4E00", "0x68"]), ("last", ["0x6B", "0x68", "0x4E00"]),
+                          ("first_two", ["0x4E00", "0x4E01", "0x68", "0x6B"])):
+        for metric in ("advancewidth", "bb.right", "bb.top"):
+            mprog = gen.Prog()
+            mprog.nglyphs = 20
+            mprog.font, _g, mprog.cmap = _ttf.simple_font(20)
+            mprog.raw_gdl = ('#include "stddef.gdh"\ntable(glyph) cX = unicode(%s); cY = glyphid(5) {wx = cX.%s}; cA = glyphid(3..6); cB = glyphid(7..10); endtable;\n'
+                             'table(sub) cA > cB; endtable;\n' % (", ".join(members), metric))
+            nm = "metric_of_class_with_missing_%s_%s" % (mpos, metric.replace(".", ""))
+            rm = harness.compile_cases(build, work, [(nm, mprog)], extra_args=["-g"])[0]
+            stats["class_metric_programs"] += 1
+            first_present = int([m for m in members if not m.startswith("0x4E")][0], 16) - 0x61 + 2
+            want = _metrics(first_present)[metric]
+            if rm["rc"] not in (0, 1):
+                harness.save_case(rep, rm, nm)
+                rep.violation(nm, {"gdl": mprog.raw_gdl, "options": ["-g"], "problem": "the compiler ended with status %s" % rm["rc"]})
+            elif rm["rc"] == 0:
+                om = common.run_grcv(["font %s/out.ttf" % rm["dir"], "dump glat"])
+                gm = [_json.loads(l) for l in om if l.startswith("{")][0]
+                vals = [v for a, v in gm["glat"]["glyphs"][5]["attrs"]]
+                if want not in vals:
+                    harness.save_case(rep, rm, nm)
+                    rep.violation(nm, {"gdl": mprog.raw_gdl, "options": ["-g"], "attribute_values_of_glyph_5": vals, "value_denoted": want,
+                                       "meaning": "cX.%s is the %s of the first glyph of cX that the font has (glyph %d); the missing member is skipped under -g" % (metric, metric, first_present)})
+            else:
+                harness.save_case(rep, rm, nm)
+                rep.violation(nm, {"gdl": mprog.raw_gdl, "options": ["-g"], "errors": [l for l in rm["err"].split("\n") if "error(" in l][:3],
+                                   "meaning": "under -g the missing member of cX is skipped (a warning); the program was refused instead"})
+            shutil.rmtree(rm["dir"], ignore_errors=True)
     rep.coverage.update({
-        "programs": len(results) + 2 * len(mcases), "programs_accepted": len(acc), "programs_rejected": len(rej),
+        "programs": len(results) + 2 * len(mcases), "class_metric_programs_under_g": stats["class_metric_programs"], "programs_accepted": len(acc), "programs_rejected": len(rej),
         "rejected_error_ids": harness.error_ids(rej), "pseudo_glyphs_checked": stats["pseudos"],
         "fonts_meeting_cmap_search_hypothesis": stats["fonts_meeting_cmap_search_hypothesis"],
         "fonts_with_unsorted_end_codes": stats["fonts_with_unsorted_end_codes"],
